@@ -18,6 +18,7 @@ import (
 	"verifharness/opfix"
 
 	"github.com/zitadel/oidc/v3/pkg/client/rp"
+	"github.com/zitadel/oidc/v3/pkg/crypto"
 	"github.com/zitadel/oidc/v3/pkg/oidc"
 	"github.com/zitadel/oidc/v3/pkg/op"
 )
@@ -324,6 +325,61 @@ func verifyCases(w *emit.Writer, g *gen, f *opfix.Fixture, n int) {
 	}
 }
 
+// ---- opening opaque tokens: crypto.DecryptAES on strings around the decoder's tolerances (IOpaque) ----
+
+const b64url = "ABCDEFGHIJKLMNOPQRSTUVWXYZabcdefghijklmnopqrstuvwxyz0123456789-_"
+
+// opaqueString: n alphabet characters, m CR / LF characters, optionally one character outside the alphabet
+func (g *gen) opaqueString(n, m int, other string) string {
+	r := g.r
+	b := make([]byte, 0, n+m+1)
+	for i := 0; i < n; i++ {
+		b = append(b, b64url[r.IntN(64)])
+	}
+	ins := func(c byte) {
+		at := r.IntN(len(b) + 1)
+		b = append(b[:at], append([]byte{c}, b[at:]...)...)
+	}
+	for i := 0; i < m; i++ {
+		ins("\r\n"[r.IntN(2)])
+	}
+	if other != "" {
+		ins(other[0])
+	}
+	return string(b)
+}
+
+func (g *gen) opaqueShape() (n, m int, other string) {
+	r := g.r
+	n = drv.Pick(r, []int{0, 1, 2, 3, 4, 4, 8, 19, 20, 21, 22, 22, 23, 24, 25, 26, 43, 44, 64, 100})
+	m = drv.Pick(r, []int{0, 0, 1, 2, 3, 18, 19, 22, 40})
+	if r.Chance(1, 4) {
+		other = drv.Pick(r, []string{" ", "=", "+", "/", "*", "\t", ".", "%", "\x00", "\xff"})
+	}
+	return
+}
+
+func opaqueCases(w *emit.Writer, g *gen, n int) {
+	r := g.r
+	key := string(r.Bytes(32))
+	for i := 0; i < n; i++ {
+		nc, m, other := g.opaqueShape()
+		if i < 2 { // seeded regression: 4 characters + 18 line feeds; 22 line feeds
+			nc, m, other = []int{4, 0}[i], []int{18, 22}[i], ""
+		}
+		s := g.opaqueString(nc, m, other)
+		var err error
+		p := drv.Catch(func() { _, err = crypto.DecryptAES(s, key) })
+		tags := []string{"kind=opaque", fmt.Sprintf("chars=%d", nc), fmt.Sprintf("crlf=%d", m), fmt.Sprintf("other=%v", other != "")}
+		w.Add(emit.Case{
+			Input:    fmt.Sprintf("(IOpaque {| ot_chars := %d; ot_crlf := %d; ot_other := %s |})", nc, m, emit.Bool(other != "")),
+			Observed: emit.Ctor("ODecode", cls(p, err)),
+			Tags:     tags,
+			Human:    map[string]any{"token": s, "panic": p, "err": fmt.Sprint(err)},
+		})
+	}
+}
+
 // ---- NewUserCode (F17) ----
 
 func userCodeCases(w *emit.Writer, g *gen, n int) {
@@ -364,11 +420,13 @@ func main() {
 	codeCases(w, g, total*3/100)
 	routeCases(w, g, total*26/100)
 	clientCases(w, g, total*15/100)
+	ambiguous := deviceCases(w, g, max(12, total*15/1000))
+	opaqueCases(w, g, total*3/100)
 	userCodeCases(w, g, max(8, total/100))
 
 	err = w.Close(emit.Meta{Property: "C09", Tier: cfg.Tier, Seed: cfg.Seed,
-		Rule:  "seeded structured fuzz, no coverage guidance. decode: JSON ASTs (well-typed members + wrong-typed / null / huge / nested / duplicate members, invalid UTF-8) serialised by the harness and fed to json.Unmarshal of each library type; verify: JWTs (provider-signed, foreign, none, garbage) around those payloads plus null / scalar / array / truncated payloads, wrong segment counts, bad base64, on the six verifier entry points; handler: request shapes (entry x endpoint/grant x form ok x Basic header kind x main parameter x client_id x first storage call fails) on Provider router, LegacyServer router and directly called grant handlers; code: redemption of a live code (public / confidential client x challenge stored or not x verifier none / right / wrong) on both routers; exit: valid authenticated revocation / introspection / userinfo requests whose k-th storage call fails (error or deadline); route: flow-first requests (a fresh code flow per case with random optional parts - challenge none / S256 / plain, nonce, state, scopes, max_age, zero auth time, empty amr / audience, not logged in -; live tokens / device codes approved, denied, pending) with mutations on every route x method x header x body of both routers, one third of them with an injected storage fault (k-th call or every call of one method, error or deadline); client: provider answers (status x body AST / truncated) through a stub RoundTripper into the client helpers. Non-trivial = model path class != 0 (not: null document, wrong segment count, missing grant_type); distinct = distinct input term.",
-		Extra: map[string]any{"router_fixture": "opfix.NewStd, all capabilities"},
+		Rule:  "seeded structured fuzz, no coverage guidance. decode: JSON ASTs (well-typed members + wrong-typed / null / huge / nested / duplicate members, invalid UTF-8) serialised by the harness and fed to json.Unmarshal of each library type; verify: JWTs (provider-signed, foreign, none, garbage) around those payloads plus null / scalar / array / truncated payloads, wrong segment counts, bad base64, on the six verifier entry points; handler: request shapes (entry x endpoint/grant x form ok x Basic header kind x main parameter x client_id x first storage call fails) on Provider router, LegacyServer router and directly called grant handlers; code: redemption of a live code (public / confidential client x challenge stored or not x verifier none / right / wrong) on both routers; exit: valid authenticated revocation / introspection / userinfo requests whose k-th storage call fails (error or deadline); route: flow-first requests (a fresh code flow per case with random optional parts - challenge none / S256 / plain, nonce, state, scopes, max_age, zero auth time, empty amr / audience, not logged in -; live tokens / device codes approved, denied, pending) with mutations on every route x method x header x body of both routers, one third of them with an injected storage fault (k-th call or every call of one method, error or deadline); device: device authorization answer (interval absent / null / 0 / negative / 1 / 2 / huge / wrongly typed, expires_in likewise) then client.PollDeviceAccessTokenEndpoint against token answers (success, pending, slow_down, refusals, garbage) under a 300 ms deadline and a 10 s hang guard; opaque: crypto.DecryptAES on strings of n alphabet characters, m CR/LF and optionally a foreign character around the 16-byte / 22-character thresholds; client: provider answers (status x body AST / truncated) through a stub RoundTripper into the client helpers. Non-trivial = model path class != 0 (not: null document, wrong segment count, missing grant_type); distinct = distinct input term.",
+		Extra: map[string]any{"router_fixture": "opfix.NewStd, all capabilities", "clock_ambiguous": ambiguous},
 	})
 	if err != nil {
 		fmt.Fprintln(os.Stderr, err)
